@@ -543,6 +543,10 @@ bool BarnettSmartVTMF_dlog::KeyGenerationProtocol_VerifyKey_interactive
 
 	try
 	{
+		// verify in-group property of the public key
+		if (!CheckElement(key))
+			throw false;
+
 		// receive commitment $m_1$
 		in >> m_1;
 		if (!in.good())
@@ -594,6 +598,10 @@ bool BarnettSmartVTMF_dlog::KeyGenerationProtocol_VerifyKey_interactive_publicco
 
 	try
 	{
+		// verify in-group property of the public key
+		if (!CheckElement(key))
+			throw false;
+
 		// receive commitment $m_1$
 		in >> m_1;
 		if (!in.good())
